@@ -96,7 +96,16 @@ class TinyDB(DataBase):
         """
         compare_function = OPERATOR_MAPPING.get(operator)
         if compare_function is not None:
-            return compare_function(query_with_attribute, ref_value)
+
+            def _compare(value: Any) -> bool:
+                # A value that cannot be compared with the reference value does not match
+                # (as in the Dictionary database) instead of raising out of the search.
+                try:
+                    return bool(compare_function(value, ref_value))
+                except TypeError:
+                    return False
+
+            return query_with_attribute.test(_compare)
 
         raise ValueError(
             "Operator not supported according to ETSI TS 102 894-2 V2.2.1 (2023-10)"
